@@ -13,7 +13,8 @@ contract(G_, 'Merger._save', kind='assumed', params={'self': 'obj[Merger]', 'nam
 contract(G_, '_concat', props=['C12', 'C11'], params={'arrs': 'rag[int]', 'axis': 'int', 'dtype': 'opt[elem]'}, defaults={'axis': '0', 'dtype': 'None'},
     requires=[('at-least-one-array', 'len(arrs) >= 1')], result='arr[int]',
     ensures=[('total-length', 'len(result) == rpsum(arrs, len(arrs))'),
-             ('blocks-in-order', 'all(result[rpsum(arrs, p) + i] == arrs[p][i] for p in range(len(arrs)) for i in range(len(arrs[p])))')])
+             ('blocks-in-order', 'all(result[rpsum(arrs, p) + i] == arrs[p][i] for p in range(len(arrs)) for i in range(len(arrs[p])))'),
+             ('every-position-lies-in-exactly-the-block-of-some-array', 'all(any(rpsum(arrs, p) <= f and f < rpsum(arrs, p + 1) and result[f] == arrs[p][f - rpsum(arrs, p)] for p in range(len(arrs))) for f in range(len(result)))')])
 
 _M0 = 'G.channel_maps'
 contract(G_, 'Merger.write_channel_data', props=['C12'], params={}, fields={'subdirs': 'list[elem]', 'out_dir': 'elem', 'channel_offsets': 'list[int]'},
